@@ -96,9 +96,14 @@ def run_one(disc, X, Y, Z, obs, alpha, n, rng_arg, settings, estimator, replay_p
     try:
         res = disc.shuffle_test(X, Y, Z, obs, alpha=alpha, n_shuffles=n, rng=rng_arg, information=settings["method"],
                                 metric=settings["metric"], k_means=settings["k"], bandwidth=settings["bandwidth"])
+    except Exception as e:       # only possible when the estimator is no longer reached through the module seam
+        disc.conditional_mutual_information = saved
+        return None, log, f"SEAM:{type(e).__name__}: {e}"[:200], None
     finally:
         disc.conditional_mutual_information = saved
     fail = None
+    if len(log) == 0 and n > 0:
+        return res, log, "SEAM:no estimator call went through discovery.conditional_mutual_information", None
     if len(log) != n:
         fail = f"estimator evaluated on {len(log)} surrogate data sets instead of n_shuffles={n}"
     elif not all(l["Y_same"] and l["Z_same"] for l in log):
@@ -142,6 +147,7 @@ def run(chk):
     n_script = 1500 if chk.tier == "quick" else 60000
     settings0 = {"method": "gaussian", "metric": "euclidean", "k": 5, "bandwidth": "silverman"}
     replay_mismatch = 0
+    seam_bypassed = []
     for t in range(n_script):
         n = int(rng.integers(2, 61)) if rng.random() < 0.9 or chk.tier == "quick" else int(rng.integers(61, 501))
         a, b = ALPHAS[int(rng.integers(len(ALPHAS)))]
@@ -164,6 +170,9 @@ def run(chk):
                         k=int(rng.integers(1, 7)), metric=str(rng.choice(["euclidean", "chebyshev"])))
         res, log, fail, rep_ok = run_one(disc, X, Y, Z, obs, alpha, n, rng_arg, settings,
                                          lambda i, d: nulls[i] if i < len(nulls) else 0.0, perms)
+        if fail is not None and fail.startswith("SEAM:"):
+            seam_bypassed.append(fail)
+            continue
         if rep_ok is False:
             replay_mismatch += 1
         if fail is None:
@@ -220,6 +229,9 @@ def run(chk):
             vals.append(float(v))
             return v
         res, log, fail, rep_ok = run_one(disc, X, Y, Z, obs, alpha, n, seed, settings, est, perms)
+        if fail is not None and fail.startswith("SEAM:"):
+            seam_bypassed.append(fail)
+            continue
         if not all(np.isfinite(v) for v in vals):
             chk.count("real.skipped_nonfinite")
             continue
@@ -236,6 +248,54 @@ def run(chk):
         chk.count("real." + method)
         if all(v == obs for v in vals):
             chk.count("real.all_tied_with_observed")
+    chk.oblige("correspondence", "surrogate evaluations go through discovery.conditional_mutual_information (the seam the scripted "
+               "estimator is installed at)", not seam_bypassed,
+               f"{len(seam_bypassed)} calls bypassed the seam" + (f", e.g. {seam_bypassed[0]}" if seam_bypassed else ""))
+    # ---- seam-free stream: nothing is patched.  Every public estimator value is >= 0 or non-finite (floor, C09), so when the
+    # observed value sits exactly at the floor 0.0 every finite surrogate value is >= observed: the fraction is 1, the threshold
+    # (a quantile of non-negative values) is >= 0 and the tie must not be declared significant.
+    n_floor = 40 if chk.tier == "quick" else 1500
+    for t in range(n_floor):
+        method = ["knn", "knn", "kde", "geometric_knn"][t % 4] if t % 8 else "poisson"
+        N = int(rng.integers(30, 80)) if method != "geometric_knn" else int(rng.integers(20, 30))
+        n = int(rng.choice([5, 19, 40]))
+        alpha = float(rng.choice([0.01, 0.05, 0.1, 0.2]))
+        if method == "poisson":
+            X, Y = rng.poisson(3, (N, 1)).astype(float), rng.poisson(2, (N, 1)).astype(float)
+            Z = None if t % 3 == 0 else rng.poisson(2, (N, 1)).astype(float)
+        else:
+            X, Y = rng.standard_normal((N, 1)), rng.standard_normal((N, 1))
+            Z = None if t % 3 == 0 else rng.standard_normal((N, int(rng.integers(1, 3))))
+        k = int(rng.integers(3, 8))
+        metric = str(rng.choice(["euclidean", "chebyshev"]))
+        with np.errstate(all="ignore"), lib.quiet():
+            obs = float(orig_cmi(X, Y, Z, method=method, metric=metric, k=k, bandwidth="silverman"))
+        chk.count("floor_stream.calls")
+        if obs != 0.0:
+            chk.count("floor_stream.observed_above_floor")
+            continue
+        seed = int(rng.integers(0, 2**31))
+        keep = (X.copy(), Y.copy(), None if Z is None else Z.copy())
+        with np.errstate(all="ignore"), lib.quiet():
+            res = disc.shuffle_test(X, Y, Z, obs, alpha=alpha, n_shuffles=n, rng=seed, information=method, metric=metric,
+                                    k_means=k, bandwidth="silverman")
+        chk.count("floor_stream.observed_at_floor." + method)
+        d = {"stream": "floor-tie (nothing patched)", "information": method, "metric": metric, "k_means": k, "alpha": alpha,
+             "n_shuffles": n, "seed": seed, "X": X.ravel().tolist(), "Y": Y.ravel().tolist(), "Z": None if Z is None else Z.tolist(),
+             "observed": obs, "impl": {k_: (bool(v) if k_ == "Pass" else float(v)) for k_, v in res.items()}}
+        chk.case(key=("floor", method, seed, N), nontrivial=True)
+        thr, pv = float(res["Threshold"]), float(res["P_value"])
+        f = None
+        if np.isfinite(thr) and thr < 0:
+            f = f"Threshold {thr} is negative although every value of the '{method}' estimator is >= 0: not a quantile of the surrogate values"
+        elif np.isfinite(thr) and pv != 1.0:
+            f = f"observed value 0.0 is the estimator's floor, so every surrogate value is >= it, but P_value = {pv}"
+        elif bool(res["Pass"]) and np.isfinite(thr):
+            f = f"observed value 0.0 merely ties with / lies below the whole null (floor) but was declared significant (p = {pv})"
+        elif not (np.array_equal(X, keep[0]) and np.array_equal(Y, keep[1]) and (Z is None or np.array_equal(Z, keep[2]))):
+            f = "caller's arrays were modified"
+        if f:
+            chk.violation("counterexample", f, d)
     lib.correspond(chk, "shuffle_model_vs_impl", IMPORTS, CASE_T, "check_case", cases, pf, lambda i: desc[i],
                    shard=500, jobs=12)
     chk.rule = ("shuffle_test called through the module seam with (a) a scripted estimator returning prescribed surrogate values "
